@@ -270,9 +270,11 @@ fn check(id: &str, tier: Tier) -> i32 {
         let name = format!("{:016x}.json", ctx::h64(&(v.clause.clone(), v.sig.clone())));
         let path = rdir.join(name);
         let shell: Vec<String> = v.cases.iter().map(|c| c.shell()).collect();
+        // what each case does today (hash of the full observation): `jv replay` reports whether it still does
+        let observed: Vec<String> = v.cases.iter().map(|c| if id == "C20" { String::new() } else { format!("{:016x}", ctx::h64(&serde_json::to_string(&drive::run(c)).unwrap_or_default())) }).collect();
         let doc = serde_json::json!({
             "property": id, "clause": v.clause, "signature": v.sig, "occurrences": v.count,
-            "expected": v.expected, "actual": v.actual, "shell": shell, "cases": v.cases,
+            "expected": v.expected, "actual": v.actual, "shell": shell, "cases": v.cases, "observed": observed,
         });
         let _ = std::fs::write(&path, serde_json::to_vec_pretty(&doc).unwrap());
         lines.push(format!("VIOLATION property={} replay={}", id, path.display()));
@@ -370,6 +372,8 @@ fn replay(file: &str) -> i32 {
     println!("recorded : {}", doc["actual"].as_str().unwrap_or(""));
     let cases: Vec<drive::Case> = serde_json::from_value(doc["cases"].clone()).unwrap_or_default();
     let mut stable = true;
+    let recorded: Vec<String> = doc["observed"].as_array().map(|a| a.iter().map(|x| x.as_str().unwrap_or("").to_string()).collect()).unwrap_or_default();
+    let mut same_as_recorded = !recorded.is_empty();
     for (i, c) in cases.iter().enumerate() {
         let a = drive::run(c);
         let b = drive::run(c);
@@ -378,6 +382,10 @@ fn replay(file: &str) -> i32 {
         println!("  run 2: {}", b.brief());
         if a != b {
             stable = false;
+        }
+        let h = format!("{:016x}", ctx::h64(&serde_json::to_string(&a).unwrap_or_default()));
+        if recorded.get(i).map(|r| r.is_empty() || *r != h).unwrap_or(true) {
+            same_as_recorded = false;
         }
     }
     let _ = std::fs::remove_dir_all(drive::work_dir());
@@ -394,5 +402,12 @@ fn replay(file: &str) -> i32 {
             return if still { 1 } else { 0 };
         }
     }
-    1
+    // no case-level oracle for this property: the replay holds iff the recorded cases behave exactly as recorded
+    if same_as_recorded {
+        println!("replay: every case behaves exactly as recorded (violation reproduces)");
+        1
+    } else {
+        println!("replay: the recorded behaviour is no longer observed (re-run ./check {id} to get a current verdict)");
+        0
+    }
 }
